@@ -145,7 +145,7 @@ def shard_meangrp_exhaustive(spec, R):
                                 m = np.where(n > 0, sm / np.maximum(n, 1), nodata)
                             exp[:, cols] = m[:, None]
                         exp32 = exp.astype(np.float32).astype(np.float64)
-                        bad = np.abs(got - exp32) > np.spacing(np.abs(exp32).astype(np.float32)).astype(np.float64)
+                        bad = ~(np.abs(got - exp32) <= np.spacing(np.abs(exp32).astype(np.float32)).astype(np.float64))  # NaN-safe
                         if np.any(bad):
                             j = int(np.argwhere(bad)[0][0])
                             if not np.allclose(o_mean_grp(a[j].tolist(), list(labels), k, nodata), exp[j]):
@@ -184,7 +184,7 @@ def shard_random(spec, R):
         exp32 = exp.astype(np.float32).astype(np.float64)
         R.evaluation()
         R.count("random_meangrp")
-        if np.any(np.abs(got - exp32) > 2 * np.spacing(np.abs(exp32).astype(np.float32)).astype(np.float64)):
+        if np.any(~(np.abs(got - exp32) <= 2 * np.spacing(np.abs(exp32).astype(np.float32)).astype(np.float64))):
             R.violation("C17:mean-grp", f"mean_grp random series ({gdt}, k={k}, nodata {nodata}) differs from the reference", {"series": x, "labels": lab, "k": k, "nodata": nodata, "dtype": gdt})
         # accessors
         if it % 5 == 0 and n >= 2:
@@ -196,7 +196,15 @@ def shard_random(spec, R):
             adt = ["int16", "int64", "float32"][(it // 5) % 3]
             da = xr.DataArray(cube.astype(adt), dims=["y", "x", "time"], coords={"time": pd.date_range("2000-01-01", periods=n, freq="D")}, attrs={"nodata": nodata})
             order = [("y", "x", "time"), ("time", "y", "x")][(it // 5) % 2]
-            res = da.transpose(*order).hdc.rolling.sum(w) if rng.random() < 0.5 else da.transpose(*order).hdc.rolling.sum(window_size=w, nodata=nodata)
+            # how the placeholder reaches the accessor: attribute only / explicit argument equal to the attribute /
+            # explicit argument overriding a different attribute / explicit argument without any attribute
+            how = (it // 5) % 4
+            R.count(f"accessor_nodata_source_{how}")
+            if how == 2:
+                da.attrs["nodata"] = -7777.0 if nodata != -7777.0 else -1234.0
+            elif how == 3:
+                da.attrs.pop("nodata")
+            res = da.transpose(*order).hdc.rolling.sum(w) if how == 0 else da.transpose(*order).hdc.rolling.sum(window_size=w, nodata=nodata)
             out = res.transpose("y", "x", "time").values
             R.count("accessor_rolling")
             if out.shape[-1] != n - w + 1:
@@ -209,13 +217,13 @@ def shard_random(spec, R):
                     for b in range(nx):
                         check_rolling_block(R, cube[a, b].reshape(1, -1), w, nodata, adt, where="accessor rolling.sum")
             lab2 = (np.arange(n) % min(n, 3)).astype(np.int16)
-            r2 = da.transpose(*order).hdc.algo.mean_grp(lab2)
+            r2 = da.transpose(*order).hdc.algo.mean_grp(lab2) if how == 0 else da.transpose(*order).hdc.algo.mean_grp(lab2, nodata=nodata)
             o2 = r2.transpose("y", "x", "time").values.astype(np.float64)
             R.count("accessor_meangrp")
             for a in range(ny):
                 for b in range(nx):
                     e = o_mean_grp(cube[a, b].tolist(), lab2.tolist(), int(lab2.max()) + 1, nodata).astype(np.float32).astype(np.float64)
-                    if np.any(np.abs(o2[a, b] - e) > 2 * np.spacing(np.abs(e).astype(np.float32)).astype(np.float64)):
+                    if np.any(~(np.abs(o2[a, b] - e) <= 2 * np.spacing(np.abs(e).astype(np.float32)).astype(np.float64))):
                         R.violation("C17:mean-grp", "accessor mean_grp differs from the reference", {"series": cube[a, b], "labels": lab2, "k": int(lab2.max()) + 1, "nodata": nodata, "dtype": adt})
 
 
@@ -256,7 +264,7 @@ def replay(case, R):
         got = np.asarray(s.mean_grp(x.astype(case["dtype"]), lab, int(case["k"]), float(case["nodata"]))).astype(np.float64)
         e = o_mean_grp(x.tolist(), lab.tolist(), int(case["k"]), float(case["nodata"])).astype(np.float32).astype(np.float64)
         R.evaluation()
-        if np.any(np.abs(got - e) > 2 * np.spacing(np.abs(e).astype(np.float32)).astype(np.float64)):
+        if np.any(~(np.abs(got - e) <= 2 * np.spacing(np.abs(e).astype(np.float32)).astype(np.float64))):
             R.violation("C17:mean-grp", "mean_grp differs from the reference", case)
     else:
         R.inconclusive_because("cube witness: re-run the random shard")
